@@ -41,9 +41,14 @@ pub fn key_args(k: &LiveKey) -> Value {
 	j
 }
 
-pub fn pick_via(rng: &mut Rng) -> String {
+pub fn pick_via(alg: &str, rng: &mut Rng) -> String {
 	if !cfg!(feature = "crypto") {
 		return "remote".to_string();
+	}
+	// an RSA key carries no hash: the auto-detecting loaders always pick SHA-256, so a key meant to
+	// sign with SHA-384/512 has to be loaded with an explicit algorithm (or be remote)
+	if alg == "rsa-sha384" || alg == "rsa-sha512" {
+		return if rng.chance(1, 5) { "remote".to_string() } else { rng.pick(&LOAD_VIAS[..4]).to_string() };
 	}
 	// remote signer in ~1/5 of the cases, the eight loading entry points otherwise
 	if rng.chance(1, 5) {
@@ -149,8 +154,8 @@ pub fn run_case(case: &Value, idx: usize, seed: u64, pool: &mut KeyPool, out: &m
 	let is_self = case["self"].as_bool().unwrap_or(true);
 	let subj_alg = sval(case, "subjAlg");
 	let sign_alg = sval(case, "signAlg");
-	let via_s = case.get("subjVia").and_then(|v| v.as_str()).map(|s| s.to_string()).unwrap_or_else(|| pick_via(&mut rng));
-	let via_i = case.get("signVia").and_then(|v| v.as_str()).map(|s| s.to_string()).unwrap_or_else(|| pick_via(&mut rng));
+	let via_s = case.get("subjVia").and_then(|v| v.as_str()).map(|s| s.to_string()).unwrap_or_else(|| pick_via(&subj_alg, &mut rng));
+	let via_i = case.get("signVia").and_then(|v| v.as_str()).map(|s| s.to_string()).unwrap_or_else(|| pick_via(&sign_alg, &mut rng));
 	let mut pub_src = sval(case, "pubSrc");
 	if !cfg!(feature = "crypto") && sval(&p["serial"], "k") == "auto" {
 		// the crypto-less build has no automatic serial (documented: MissingSerialNumber)
